@@ -187,7 +187,7 @@ fn registry() -> Vec<Entry> {
 }
 
 fn run_entry(e: &Entry, rng_seed: u64, fixture: u64) -> Result<(String, Fingerprint), String> {
-    let mut r = TraceRng::new(rng_seed);
+    let mut r = TraceRng::stream(rng_seed);
     catch(|| (e.1)(&mut r, fixture)).map(|s| (s, r.fingerprint())).map_err(|p| p.to_string())
 }
 
